@@ -207,11 +207,10 @@ def insertAll (m0 : Directives) (pairs : List (Str × Str)) : Directives :=
 def dInsertAll (m0 : Directives) (pairs : List (Str × Str)) : Directives :=
   pairs.foldl (fun m p => directiveInsert m p.1 p.2) m0
 
-theorem parseDirectives_pairs (s : Str) :
-    parseDirectives s = dInsertAll [] ((trimmedCSV s).filterMap directiveOfPart) := by
-  unfold parseDirectives dInsertAll
+theorem parseDirectivesInto_pairs (s : Str) (m0 : Directives) :
+    parseDirectivesInto m0 s = dInsertAll m0 ((trimmedCSV s).filterMap directiveOfPart) := by
+  unfold parseDirectivesInto dInsertAll
   generalize trimmedCSV s = parts
-  generalize ([] : Directives) = m0
   induction parts generalizing m0 with
   | nil => rfl
   | cons p ps ih =>
@@ -219,6 +218,25 @@ theorem parseDirectives_pairs (s : Str) :
     cases hd : directiveOfPart p with
     | none => exact ih m0
     | some kv => simp only [List.foldl_cons]; exact ih _
+
+theorem parseDirectives_pairs (s : Str) :
+    parseDirectives s = dInsertAll [] ((trimmedCSV s).filterMap directiveOfPart) :=
+  parseDirectivesInto_pairs s []
+
+theorem dInsertAll_append (m0 : Directives) (a b : List (Str × Str)) :
+    dInsertAll m0 (a ++ b) = dInsertAll (dInsertAll m0 a) b := by
+  unfold dInsertAll; rw [List.foldl_append]
+
+/-- the field lines of a message, each split on its own: the insertion, in order, of the directives of
+    all lines -/
+theorem parseLines_pairs (lines : List Str) (m0 : Directives) :
+    lines.foldl parseDirectivesInto m0 =
+      dInsertAll m0 (lines.flatMap fun l => (trimmedCSV l).filterMap directiveOfPart) := by
+  induction lines generalizing m0 with
+  | nil => rfl
+  | cons l ls ih =>
+    simp only [List.foldl_cons, List.flatMap_cons]
+    rw [ih, parseDirectivesInto_pairs, dInsertAll_append]
 
 /-- with distinct names the special rule for duplicate no-cache never fires -/
 theorem dInsertAll_eq_insertAll (pairs : List (Str × Str)) : ∀ (m0 : Directives),
